@@ -1083,6 +1083,7 @@ func values(b *base, p Pos, salt uint64) []Val {
 		}
 		add("near-miss", nearMisses(cur, ok, 2)...)
 		add("random", "ZZZ9", "0")
+		add("other-case", lower, upper)
 		add("malformed", lower+"~")
 	}
 	return out
